@@ -92,6 +92,11 @@ func (g *Grammar) Derivation(toks []Tok, recs []RecEvent, totalFetched int) (any
 	var st []stackEnt
 	shifted := 0
 	g.UsedUnassigned = false
+	for i, t := range toks {
+		if t.Term < 0 || t.Term >= len(g.Spec.Terms) {
+			return nil, fmt.Errorf("token #%d is no terminal of the grammar, yet the input was accepted", i)
+		}
+	}
 	shiftTo := func(n int) error {
 		if n > len(toks) {
 			return fmt.Errorf("reduction after %d shifted tokens but the input has %d", n, len(toks))
